@@ -11,7 +11,7 @@ export CARGO_NET_OFFLINE=true CARGO_TARGET_DIR=$wt/target
 log=$(mktemp)
 if [ ! -d $wt ]; then git -C /repo worktree add --detach $wt HEAD >/dev/null 2>&1; fi
 git -C $wt checkout -q --detach $(git -C /repo rev-parse HEAD) 2>/dev/null; git -C $wt checkout -q -- . ; git -C $wt clean -fdq -e target
-demo_path=$(grep -m1 -oE "Place demo.rs at: *[^ ]+" $src/demo.txt | sed 's/Place demo.rs at: *//')
+demo_path=$(grep -m1 -oE "identity_[a-z_]+/tests/[A-Za-z0-9_]+\.rs" $src/demo.txt)
 crate=${demo_path%%/*}; tname=$(basename $demo_path .rs)
 feat=$(grep -m1 -oE -- "--features [A-Za-z0-9_,-]+" $src/demo.txt || true)
 res() { echo "$1" | tee -a $log; }
